@@ -56,6 +56,7 @@ func main() {
 	withTape := flag.Bool("tape", false, "include the consumed tape in the report")
 	trace := flag.Bool("trace", false, "include full traces")
 	outFD := flag.Int("outfd", 1, "file descriptor for the report")
+	sites := flag.String("sites", "", "simgen sites.json")
 	flag.Parse()
 
 	// the library prints a lot: send fds 1 and 2 to /dev/null, keep the report fd
@@ -77,6 +78,16 @@ func main() {
 	}
 	out := os.NewFile(uintptr(rfd), "report")
 
+	if *sites != "" {
+		if b, err := os.ReadFile(*sites); err == nil {
+			var l []scen.Site
+			if json.Unmarshal(b, &l) == nil {
+				for _, x := range l {
+					scen.Sites[x.ID] = x
+				}
+			}
+		}
+	}
 	var sc scen.Scenario
 	var tape []uint32
 	useTape := false
